@@ -83,7 +83,8 @@ static void nv_cache_store(struct nv_data at, struct nv_data v)
 /* representation invariant of a cache (established chunk by chunk by the cache_* lambdas below): if it has one row per sample,
  * it holds the scaled values of all samples, scaled with the CURRENT mode (the library sets the mode before caching:
  * src/linear.cpp:35-37) */
-#define NV_CACHE_OK(c, k, S) ((self->c.rows == self->m_samples.size) ==> NV_SCALED_ROWS_OF_SAMPLES(self->c, k, S, 0, self->m_samples.size))
+/* (an iterator over ZERO samples delivers zero rows from either branch: nothing to hold) */
+#define NV_CACHE_OK(c, k, S) ((self->c.rows == self->m_samples.size && self->m_samples.size > 0) ==> NV_SCALED_ROWS_OF_SAMPLES(self->c, k, S, 0, self->m_samples.size))
 #define NV_XITER_FRESH __CPROVER_is_fresh(self, sizeof(*self)) && self->m_samples.size >= 0 && self->m_samples.size < (1LL << 60)
 #define NV_RANGE_OK __CPROVER_is_fresh(range, sizeof(*range)) && 0 <= range->m_begin && range->m_begin < range->m_end && range->m_end <= self->m_samples.size
 
@@ -118,6 +119,62 @@ __CPROVER_ensures(nv_stored.buffer == tnum)
  * (the enclosing function contains a try/catch and is not extracted: this binding is read off its first two lines) */
 #define NV_CONTRACT_cache_flatten_task NV_CACHE_TASK_CONTRACT(m_flatten, NV_FLATTEN, m_flatten_stats, m_flatten_buffers) \
 __CPROVER_requires(samples == &self->m_samples && dataset == &self->m_dataset)
+
+/* (b) the setters: scaling(mode) changes the mode and NOTHING else -- in particular a cache keeps the mode tag it was built under
+ * (it is NOT rebuilt / dropped): after scaling(m') with m' != the build mode, NV_CACHE_OK no longer holds.  Usage rule (and
+ * assumption of targets_at / flatten_at): the mode is set before cache_* and not afterwards -- true at every library call site
+ * (src/linear.cpp:34-37, 119-120; src/linear/util.cpp:34-35; src/gboost/model.cpp:91-100, 321-322); natively demonstrated hazard:
+ * FINDING_scaling_after_cache.md */
+#define NV_CONTRACT_scaling_set \
+__CPROVER_requires(NV_XITER_FRESH) __CPROVER_assigns(self->m_scaling) \
+__CPROVER_ensures(self->m_scaling == NV_ARG_scaling_set_1) \
+__CPROVER_ensures(self->m_targets.mode == __CPROVER_old(self->m_targets.mode) && self->m_flatten.mode == __CPROVER_old(self->m_flatten.mode) \
+                  && self->m_targets.rows == __CPROVER_old(self->m_targets.rows) && self->m_flatten.rows == __CPROVER_old(self->m_flatten.rows)) \
+__CPROVER_ensures(self->m_targets.scaled == __CPROVER_old(self->m_targets.scaled) && self->m_flatten.scaled == __CPROVER_old(self->m_flatten.scaled) \
+                  && self->m_targets.stats == __CPROVER_old(self->m_targets.stats) && self->m_flatten.stats == __CPROVER_old(self->m_flatten.stats))
+#define NV_CONTRACT_batch_set \
+__CPROVER_requires(NV_XITER_FRESH) __CPROVER_assigns(self->m_batch) \
+__CPROVER_ensures(self->m_batch == NV_ARG_batch_set_1)
+
+/* ---- (a) cache_targets / cache_flatten, outer bodies (try / catch printed by the engine's CXXTryStmt form) ---------------------------
+ * From the property ("the values do not depend on whether inputs / targets are cached"): whatever happens inside -- allocation failure,
+ * a throwing chunk task -- ON RETURN a cache that has one row per sample holds the scaled rows of all samples (NV_CACHE_OK), because the
+ * access paths select the cached branch by that shape alone; `true` is returned only for a complete cache; the chunk task is mapped once,
+ * over ALL samples, in chunks of batch(), after the cache was resized to one row per sample. */
+int64_t __CPROVER_uninterpreted_imul(int64_t, int64_t);
+#define NV_IMUL(a, b) __CPROVER_uninterpreted_imul(a, b)        /* the byte-count guard: uninterpreted (it only gates the attempt) */
+static int64_t nv_ds_columns(const struct nv_dataset* d) { return nv_nondet_int64_t(); }
+static uint64_t nv_ds_tdims(const struct nv_dataset* d) { return nv_nondet_uint64_t(); }
+static int64_t nv_tdims_size(uint64_t dims) { return nv_nondet_int64_t(); }
+/* tensor_t::resize(dims) (ASSUMED contract, read off include/nano/tensor/storage.h:88-92): the new dimensions are stored FIRST, then the
+ * storage is (re)allocated, which may throw std::bad_alloc; the contents are unspecified afterwards */
+static void nv_cache_resize(struct nv_data* c, int64_t rows)
+{
+  c->rows = rows; c->begin = 0; c->end = 0; c->scaled = 0; c->kind = 0; c->src = 0; c->stats = 0; c->mode = 0;
+  if (nv_nondet__Bool()) nv_thrown = 1;
+}
+/* tensorNd_t{}: no rows, nothing held; `cache = std::move(tensor)` (noexcept move assignment of an owning tensor, ASSUMED contract of
+ * tensor_vector_storage_t): the destination takes the dimensions and the contents of the source, nothing can throw */
+static struct nv_data nv_cache_empty(void)
+{ struct nv_data d; d.kind = 0; d.src = 0; d.begin = 0; d.end = 0; d.scaled = 0; d.stats = 0; d.mode = 0; d.cached = 0; d.buffer = 0; d.rows = 0; return d; }
+static struct nv_data* nv_cache_assign(struct nv_data* dst, struct nv_data src) { *dst = src; return dst; }
+uint64_t nv_cache_maps;
+/* map(elements, chunk, task) (C17: tiles [0, elements), rethrows a task's exception) running the chunk task (contract: cache_*_task) */
+static void nv_cache_map(struct nv_xiter* it, struct nv_data* c, int32_t kind, uint64_t stats, int64_t elements, int64_t chunk)
+{
+  __CPROVER_assert(elements == it->m_samples.size, "cache: the chunk task is mapped over ALL samples");
+  __CPROVER_assert(chunk == it->m_batch, "cache: in chunks of batch()");
+  __CPROVER_assert(c->rows == it->m_samples.size, "cache: resized to one row per sample before it is filled");
+  nv_cache_maps = nv_cache_maps + 1;
+  if (nv_nondet__Bool()) { nv_thrown = 1; return; }          /* a chunk task threw: only some rows were stored */
+  c->kind = kind; c->src = it->m_samples.id; c->begin = 0; c->end = it->m_samples.size; c->scaled = 1; c->stats = stats; c->mode = it->m_scaling;
+}
+#define NV_CACHE_OUTER(c, k, S) \
+__CPROVER_requires(NV_XITER_FRESH && nv_cache_maps == 0 && NV_CACHE_OK(c, k, S)) __CPROVER_assigns(self->c, nv_thrown, nv_cache_maps) \
+__CPROVER_ensures(nv_thrown || !__CPROVER_return_value || (self->c.rows == self->m_samples.size && nv_cache_maps == 1)) \
+__CPROVER_ensures(nv_thrown || NV_CACHE_OK(c, k, S))
+#define NV_CONTRACT_cache_targets NV_CACHE_OUTER(m_targets, NV_TARGETS, m_targets_stats)
+#define NV_CONTRACT_cache_flatten NV_CACHE_OUTER(m_flatten, NV_FLATTEN, m_flatten_stats)
 
 /* make_range / tensor_range_t(begin, end): extracted */
 void range_ctor(struct nv_range* self, int64_t begin, int64_t end);
